@@ -232,7 +232,9 @@ def run_case(case):
             if m is None or not hasattr(m, "cluster_centers_"):
                 continue
             outcomes.add((k, tuple(sorted(numpy.bincount(m.labels_, minlength=k).tolist()))))
-            mb = ConstraintKMeans(n_clusters=k, strategy=case["strategy"], random_state=sd, max_iter=5, n_init=2, balanced_predictions=True)
+            # the flag as GridSearchCV / ParameterGrid hand it over (a NumPy bool) or as an integer: true is true
+            mb = ConstraintKMeans(n_clusters=k, strategy=case["strategy"], random_state=sd, max_iter=5, n_init=2,
+                                  balanced_predictions=[numpy.True_, 1, True][(sd + k) % 3])
             for att in ("cluster_centers_", "labels_", "inertia_", "n_iter_", "weights_", "n_features_in_", "_n_threads"):
                 if hasattr(m, att):
                     setattr(mb, att, getattr(m, att))
